@@ -367,7 +367,7 @@ class Generator:
             if len(l) != 1:
                 raise LostAnchor(f'{len(l)} candidates for const {it.key}')
             o = l[0]
-            sig, body = R.const_to_fn(o.tokens, o.impl is not None, log)
+            sig, body = R.const_to_fn(o.tokens, o.impl is not None, log, trait_impl=(o.impl is not None and ' for ' in o.impl.split('{')[0] and o.impl.startswith('impl')))
             impl, modpath = o.impl, o.modpath
         if 'r15' in e.opts:
             if e.kind != 'fn' or impl is None or ' for ' not in impl:
@@ -386,6 +386,15 @@ class Generator:
         sig = R.r16_pub_super(sig, log)
         both(R.r2_panics, log)
         both(R.r3_const_uses, self.x.const_names, self_is_bnum, log)
+        if e.kind == 'fn' and impl is None:
+            tps = R.fn_type_params(sig)
+            if tps:
+                body = R.r3_typaram_consts(body, tps, log)
+        both(R.r20_float_consts, (self.x.impl_self(impl) if impl is not None else None), log)
+        if 'r21' in e.opts:
+            body = R.r21_deref_self(body, log)
+        if 'fneg' in e.opts:
+            body = R.r22_float_neg(body, e.opts['fneg'], log)
         both(R.r6_int_ident, log)
         both(R.r11_for_underscore, log)
         if 'r12' in e.opts:
@@ -646,7 +655,7 @@ class Generator:
         it.modpath = modpath
         it.name = it.key
         it.code_tokens = len(C)
-        if cmap[0] > 0 and it.kind == 'fn' and impl is not None:
+        if cmap[0] > 0 and it.kind in ('fn', 'const') and impl is not None:
             # a ghost region in front of the first real token of a method = ghost members of the
             # enclosing impl block (e.g. `open spec fn cast_req/cast_post` of a trait impl): they are
             # emitted inside the `impl HEADER { .. }` block before the fn, for the full item and its stub alike
@@ -1119,7 +1128,7 @@ class Generator:
                 mp = it.modpath
             elif it.kind in ('raw', 'spec') and it.modpath:
                 mp = it.modpath
-            elif it.kind == 'fn' and it.impl_header is not None and ' for ' in it.impl_header and 'module' in it.entry.opts:
+            elif it.kind in ('fn', 'const') and it.impl_header is not None and ' for ' in it.impl_header and 'module' in it.entry.opts:
                 # trait impls may be placed in a module of their own (opt `module=NAME`): the impl headers of the
                 # expansion name traits unqualified (`impl Mul for ..`), which clashes at the crate root with
                 # hoisted local items of the same name (R7 `struct Mul` of basecase_div_rem)
@@ -1161,7 +1170,7 @@ class Generator:
 
             def same_trait_impl(a, b):
                 # adjacent fns of one trait impl (`impl Ord for T { cmp, max, min, clamp }`) share one impl block
-                return (a is not None and b is not None and a.kind == 'fn' and b.kind == 'fn' and a.impl_header is not None
+                return (a is not None and b is not None and a.kind in ('fn', 'const') and b.kind in ('fn', 'const') and a.impl_header is not None
                         and a.impl_header == b.impl_header and ' for ' in a.impl_header and not a.is_mp and not b.is_mp)
             for li, it in enumerate(live):
                 prev_it = live[li - 1] if li > 0 else None
